@@ -12,63 +12,58 @@ bind, session, message/presence/iq with any from/to, stream close) plus `deliver
 its i-th outstanding reply" — in any order, including stanzas before authentication and elements sent while
 a checker reply is still outstanding.  No hypothesis on the script.
 
-What is proved, exactly.  `Ev.sameRead e` = element `e` arriving in the same TCP read as the previous element of that
-connection; the server processes such elements even after it has closed the stream on an earlier element of the read
-(finding C16:processing-after-disconnect, fixes/C16-ignore-input-after-disconnect.diff).
-FOR EVERY SCRIPT (including `sameRead`, every interleaving of any number of connections):
+What is proved, exactly — for every script (several elements per read included: `Ev.sameRead`), every interleaving of any
+number of connections, every checker; `'/' ∉ cfg.domain` is the only configuration assumption (literal forms only):
+* `auth_only_if_checker_approved` / `_literal` / `auth_only_if_getPassword_approves`: a non-empty jid is literally
+  `u@domain[/resource]` for a well-formed user name `u` (non-empty, no '/', no '@') whose credential the checker approved;
+  a PLAIN / DIGEST-MD5 authorization identity is ignored.
 * `needs_auth_only_authenticated` (+ `routes_`/`bind_only_authenticated`): nothing is bound, routed or answered before
   an authentication record of that connection.
-* `from_is_authenticated_jid`, `cannot_spoof`, `replies_addressed_to_sender` (every server state): the `from` of a
-  routed/delivered stanza is the sending connection's own jid or its bare form; comparison is exact.
-FOR SCRIPTS WITHOUT `sameRead` (`*_partial`; the full statements are believed true today but not proved, and become
-provable the same way once the server ignores input after it has closed the stream):
-* `auth_only_if_checker_approved_partial` / `_literal_partial` / `auth_only_if_getPassword_approves_partial`: a non-empty
-  jid is literally `u@domain[/resource]` for a well-formed user name `u` (non-empty, no '/', no '@') whose credential the
-  checker approved ('/' ∉ domain assumed for the literal form); a PLAIN / DIGEST-MD5 authorization identity is ignored.
-* `cannot_spoof_approved_partial`, `cannot_spoof_literal_partial`.
-* `tables_reference_open_connections_partial`, `never_routes_to_closed_connection_partial`: the routing tables
-  reference open connections only.  FALSE with `sameRead` (`C16_defect_bind_after_disconnect`): a bind processed after
-  the server closed the stream registers a connection that is about to be deleted.
-* `Out.ub`: a write through such an entry (real server: SIGSEGV), and `onSasl2Authenticated()` with an unset request
-  (no explored script reaches the latter).
+* `from_is_authenticated_jid`, `cannot_spoof`, `replies_addressed_to_sender` (every server state), `cannot_spoof_approved`,
+  `cannot_spoof_literal`: the `from` of a routed/delivered stanza is the sending connection's own jid or its bare form,
+  literally the address of its approved user; comparison is exact.
+* `tables_reference_open_connections`, `never_routes_to_closed_connection`: the routing tables reference open
+  connections only; no write ever goes to a connection that is gone.
+* `Out.ub` remains in the model where `onSasl2Authenticated()` would read an unset `sasl2AuthRequest`; no explored script
+  reaches it (not proved unreachable).
 * Out of scope: server-to-server (`QXmppIncomingServer`/`QXmppOutgoingServer`, dialback) — the modelled server has no
   S2S listener, stanzas for other domains are not routed; server extensions; TLS; stringprep / case folding of JIDs.
 
-History: seven findings were fixed in the repo — 73b9a89 (pre-authentication stanza / bind / session), e590a14 (checker
+History: eight findings were fixed in the repo — 73b9a89 (pre-authentication stanza / bind / session), e590a14 (checker
 reply applied to a later SASL exchange), f6325af (user names with '/' or '@'), c3084c3 (routing entries outliving their
-connection: crash), e17a168 (SASL2 success with an unset request: crash).  Their witnesses are the first scripts of the
-harness corpus, the two crashes are also re-run in a child process.
+connection: crash), e17a168 (SASL2 success with an unset request: crash), 1c23dbf (elements processed after the stream was closed,
+in the same read: bind after disconnect, crash).  Their witnesses are the first scripts of the
+harness corpus, the three crashes are also re-run in a child process.
 -/
 namespace Qx.C16
 
 /-! ## 1. who a connection is accepted as -/
 
-/-- **auth_only_if_checker_approved (partial).**  FULL STATEMENT: for every script.  PROVED for scripts in which
-every element is read on its own (no `Ev.sameRead`).  For every checker, such script and connection `c`: if the server-side jid of
+/-- **auth_only_if_checker_approved.**  For every checker, script and connection `c`: if the server-side jid of
 `c` is non-empty then it is derived (`JidOf`: `u@domain`, or that followed by "/resource") from a user name `u` that is
 well-formed and for which `c` itself has sent a credential that the checker approves (`check u p = ok` for a PLAIN
 pair, resp. a DIGEST-MD5 response computed from exactly `digestOf u`).  ANONYMOUS never sets a jid. -/
-theorem auth_only_if_checker_approved_partial (cfg : Cfg) (ops : List (Nat × Ev)) (hns : NoSameRead ops) (c : Nat) :
+theorem auth_only_if_checker_approved (cfg : Cfg) (ops : List (Nat × Ev)) (c : Nat) :
     ((run cfg init ops).1.conns c).jid ≠ [] →
       ∃ u, Approved cfg ops c u ∧ ¬ badName u ∧ JidOf cfg u ((run cfg init ops).1.conns c).jid := by
-  have h := servInv_run cfg ops [] init (servInv_init cfg) hns
+  have h := servInv_run cfg ops [] init (servInv_init cfg)
   simp only [List.nil_append] at h
   intro hj
   obtain ⟨u, ⟨hu, hgood⟩, hjid⟩ := (h c).jid_ok hj
   exact ⟨u, hu, hgood, hjid⟩
 
-/-- **auth_only_if_checker_approved, for a checker written the documented way (partial: scripts without `sameRead`)** (only `getPassword()`; the
+/-- **auth_only_if_checker_approved, for a checker written the documented way** (only `getPassword()`; the
 library's default `checkPassword()` / `getDigest()` do the rest): a non-empty jid is `u@domain[/resource]` for a
 user `u` for which the connection itself sent the PLAIN pair (u, p) with `getPassword u = NoError p`, or a
 DIGEST-MD5 response computed from MD5(u:domain:p) for that `p`.  In particular a user for whom `getPassword`
 reports an error (unknown, rejected, temporarily failing) is never accepted — not with the empty password either. -/
-theorem auth_only_if_getPassword_approves_partial (domain : List Char) (gp : List Char → PwRes)
-    (md5 : List Char → List Char → List Char) (ops : List (Nat × Ev)) (hns : NoSameRead ops) (c : Nat) :
+theorem auth_only_if_getPassword_approves (domain : List Char) (gp : List Char → PwRes)
+    (md5 : List Char → List Char → List Char) (ops : List (Nat × Ev)) (c : Nat) :
     ((run (Cfg.ofGetPassword domain gp md5) init ops).1.conns c).jid ≠ [] →
       ∃ u, (∃ ev, (c, ev) ∈ ops ∧ GpApproves gp md5 ev u) ∧ ¬ badName u ∧
         JidOf (Cfg.ofGetPassword domain gp md5) u ((run (Cfg.ofGetPassword domain gp md5) init ops).1.conns c).jid := by
   intro hj
-  obtain ⟨u, ⟨ev, hm, ha⟩, hgood, hjid⟩ := auth_only_if_checker_approved_partial (Cfg.ofGetPassword domain gp md5) ops hns c hj
+  obtain ⟨u, ⟨ev, hm, ha⟩, hgood, hjid⟩ := auth_only_if_checker_approved (Cfg.ofGetPassword domain gp md5) ops c hj
   exact ⟨u, ⟨ev, hm, gpApproves_of_approves domain gp md5 ev u ha⟩, hgood, hjid⟩
 
 /-- the resource part never eats into the user: when neither the approved user name nor the domain contains
@@ -83,14 +78,13 @@ theorem jidOf_plain (cfg : Cfg) (u j : List Char) (h : JidOf cfg u j) (hu : '/' 
 def CleanJid (cfg : Cfg) (u j : List Char) : Prop :=
   j = mkBare u cfg.domain ∨ ∃ r, j = mkBare u cfg.domain ++ '/' :: r
 
-/-- **auth_only_if_checker_approved, literal form (partial: scripts without `sameRead`).**  The jid is literally `u@domain` or `u@domain/resource` for a
+/-- **auth_only_if_checker_approved, literal form.**  The jid is literally `u@domain` or `u@domain/resource` for a
 well-formed, approved `u` (the configured domain is assumed to contain no '/'). -/
-theorem auth_only_if_checker_approved_literal_partial (cfg : Cfg) (hdom : '/' ∉ cfg.domain) (ops : List (Nat × Ev))
-    (hns : NoSameRead ops) (c : Nat) :
+theorem auth_only_if_checker_approved_literal (cfg : Cfg) (hdom : '/' ∉ cfg.domain) (ops : List (Nat × Ev)) (c : Nat) :
     ((run cfg init ops).1.conns c).jid ≠ [] →
       ∃ u, Approved cfg ops c u ∧ ¬ badName u ∧ CleanJid cfg u ((run cfg init ops).1.conns c).jid := by
   intro hj
-  obtain ⟨u, hu, hgood, hjid⟩ := auth_only_if_checker_approved_partial cfg ops hns c hj
+  obtain ⟨u, hu, hgood, hjid⟩ := auth_only_if_checker_approved cfg ops c hj
   exact ⟨u, hu, hgood, jidOf_plain cfg u _ hjid (not_slash_mkBare u cfg.domain hgood hdom)⟩
 
 /-! ## 2. nothing is bound, routed or answered before authentication -/
@@ -152,10 +146,10 @@ theorem replies_addressed_to_sender (cfg : Cfg) (s : Server) (op : Nat × Ev) (s
   rw [hto, h1]
   exact hem.1
 
-/-- **cannot_spoof_approved (partial: scripts without `sameRead`)** (cannot_spoof combined with 1.): the `from` of every stanza delivered on behalf of
+/-- **cannot_spoof_approved** (cannot_spoof combined with 1.): the `from` of every stanza delivered on behalf of
 `src`, after any script, is the full or bare jid of a user `u` whose credential, sent by `src` itself, the
 checker approved. -/
-theorem cannot_spoof_approved_partial (cfg : Cfg) (ops : List (Nat × Ev)) (hns : NoSameRead ops) (op : Nat × Ev)
+theorem cannot_spoof_approved (cfg : Cfg) (ops : List (Nat × Ev)) (op : Nat × Ev)
     (src dst : Nat) (st : Stanza) (h : Out.deliver src dst st ∈ (step cfg (run cfg init ops).1 op).2) :
     ∃ u, Approved cfg ops src u ∧ JidOf cfg u ((run cfg init ops).1.conns src).jid ∧
       (st.sender = ((run cfg init ops).1.conns src).jid ∨ st.sender = bareOf ((run cfg init ops).1.conns src).jid) := by
@@ -168,17 +162,16 @@ theorem cannot_spoof_approved_partial (cfg : Cfg) (ops : List (Nat × Ev)) (hns 
     rw [h2] at hco
     rw [h1]
     exact connStepAny_emit_jid_ne cfg _ _ _ st hco
-  obtain ⟨u, hu, _, hj⟩ := auth_only_if_checker_approved_partial cfg ops hns src hne
+  obtain ⟨u, hu, _, hj⟩ := auth_only_if_checker_approved cfg ops src hne
   exact ⟨u, hu, hj, hfrom⟩
 
-/-- **cannot_spoof, literal form (partial: scripts without `sameRead`).**  The `from` of every stanza delivered on behalf of `src`, after any script, is
+/-- **cannot_spoof, literal form.**  The `from` of every stanza delivered on behalf of `src`, after any script, is
 literally `u@domain` or `u@domain/resource` for a well-formed user `u` whose credential, sent by `src` itself, the
 checker approved (the configured domain is assumed to contain no '/'). -/
-theorem cannot_spoof_literal_partial (cfg : Cfg) (hdom : '/' ∉ cfg.domain) (ops : List (Nat × Ev)) (hns : NoSameRead ops)
-    (op : Nat × Ev)
+theorem cannot_spoof_literal (cfg : Cfg) (hdom : '/' ∉ cfg.domain) (ops : List (Nat × Ev)) (op : Nat × Ev)
     (src dst : Nat) (st : Stanza) (h : Out.deliver src dst st ∈ (step cfg (run cfg init ops).1 op).2) :
     ∃ u, Approved cfg ops src u ∧ CleanJid cfg u st.sender := by
-  obtain ⟨u0, _, _, hfrom⟩ := cannot_spoof_approved_partial cfg ops hns op src dst st h
+  obtain ⟨u0, _, _, hfrom⟩ := cannot_spoof_approved cfg ops op src dst st h
   have hne : ((run cfg init ops).1.conns src).jid ≠ [] := by
     intro he
     rcases hfrom with hf | hf
@@ -194,7 +187,7 @@ theorem cannot_spoof_literal_partial (cfg : Cfg) (hdom : '/' ∉ cfg.domain) (op
       obtain ⟨h1, h2⟩ := (applyOut_stanza_origin cfg s' op.1 co _ hs').2.1 _ _ _ rfl
       rw [h2] at hco
       exact connStepAny_emit_jid_ne cfg _ _ _ st hco (by rw [← h1]; exact he)
-  obtain ⟨u, hu, hgood, hclean⟩ := auth_only_if_checker_approved_literal_partial cfg hdom ops hns src hne
+  obtain ⟨u, hu, hgood, hclean⟩ := auth_only_if_checker_approved_literal cfg hdom ops src hne
   have hn := not_slash_mkBare u cfg.domain hgood hdom
   have hfrom' := cannot_spoof cfg _ op src dst st h
   refine ⟨u, hu, ?_⟩
@@ -211,35 +204,19 @@ theorem cannot_spoof_literal_partial (cfg : Cfg) (hdom : '/' ∉ cfg.domain) (op
 
 /-! ## 4. the routing tables -/
 
-/-- **tables_reference_open_connections (partial).**  FULL STATEMENT (false today, `C16_defect_bind_after_disconnect`):
-after any script.  PROVED for scripts without `Ev.sameRead`: after such a script, every entry of the two routing tables points to a
+/-- **tables_reference_open_connections**: after any script, every entry of the two routing tables points to a
 connection that is still open — whatever sequence of binds, rebinds, re-logins, conflicts and disconnects of any
 number of connections produced it. -/
-theorem tables_reference_open_connections_partial (cfg : Cfg) (ops : List (Nat × Ev)) (hns : NoSameRead ops) :
-    TablesOpen (run cfg init ops).1 :=
-  tablesOpen_run cfg ops init tablesOpen_init hns
+theorem tables_reference_open_connections (cfg : Cfg) (ops : List (Nat × Ev)) : TablesOpen (run cfg init ops).1 :=
+  tablesOpen_run cfg ops init tablesOpen_init
 
-/-- **never_routes_to_closed_connection (partial: scripts without `sameRead`)**: whoever `routeData` finds for any address, in any reachable state, is an
+/-- **never_routes_to_closed_connection**: whoever `routeData` finds for any address, in any reachable state, is an
 open connection: the server never writes to a connection that is gone. -/
-theorem never_routes_to_closed_connection_partial (cfg : Cfg) (ops : List (Nat × Ev)) (hns : NoSameRead ops)
-    (to : List Char) (found : List Nat)
+theorem never_routes_to_closed_connection (cfg : Cfg) (ops : List (Nat × Ev)) (to : List Char) (found : List Nat)
     (h : route cfg (run cfg init ops).1 to = some found) (d : Nat) (hd : d ∈ found) :
     ((run cfg init ops).1.conns d).closed = false := by
   obtain ⟨e, he, rfl⟩ := route_found_in_tables cfg _ to found h d hd
-  exact tables_reference_open_connections_partial cfg ops hns e he
-
-/-- **Defect (C16:processing-after-disconnect).**  `tables_reference_open_connections` is false for today's code: an
-authenticated connection sends, in ONE read, an `<auth/>` with an unknown mechanism (the server answers `<failure/>`,
-closes the stream and unregisters the connection) followed by a bind request: the bind is still processed, and
-the connection — about to be deleted — is registered in the routing tables under `m@d/r`. -/
-theorem C16_defect_bind_after_disconnect :
-    ¬ (∀ (cfg : Cfg) (ops : List (Nat × Ev)), TablesOpen (run cfg init ops).1) := by
-  intro h
-  have h1 := h { domain := ['d'], check := fun u p => if u = ['m'] ∧ p = ['p'] then .ok else .bad, digestOf := fun _ => .nouser }
-    [(1, .openStream ['d']), (1, .auth false ['P', 'L', 'A', 'I', 'N'] (.creds ['m'] ['p']) false), (1, .deliver 0),
-     (1, .auth false ['X'] .empty false), (1, .sameRead (.bind ['r']))]
-    (['m', '@', 'd', '/', 'r'], 1) (Or.inl (by decide))
-  exact absurd h1 (by decide)
+  exact tables_reference_open_connections cfg ops e he
 
 /-! ## 5. concrete runs: the statements are about real, non-trivial scripts -/
 
@@ -358,16 +335,18 @@ example : (run demoCfg init
      (2, .openStream ['d']), (2, .auth false plainName (.creds ['m'] ['p']) false), (2, .deliver 0), (2, .bind ['r'])]).1.byJid
     = [(['m', '@', 'd', '/', 'r'], 2)] := by decide
 
-/-- the witness of finding C16:processing-after-disconnect in full: `<failure/>`, stream end, `disconnected`, and then
-— in the same read — the bind is accepted (`connected` after `disconnected`) and a message is routed and delivered -/
+/-- the witness of the former finding C16:processing-after-disconnect: `<failure/>`, stream end, `disconnected` — and
+the bind and the message that follow in the same read are ignored -/
 example : (run demoCfg init
     [(0, .openStream ['d']), (0, .auth false plainName (.creds ['m'] ['p']) false), (0, .deliver 0), (0, .bind ['v']),
      (1, .openStream ['d']), (1, .auth false plainName (.creds ['m'] ['p']) false), (1, .deliver 0),
      (1, .auth false ['X'] .empty false), (1, .sameRead (.bind ['r'])),
      (1, .sameRead (.stanza { kind := .message, sender := [], to := ['m', '@', 'd', '/', 'v'] }))]).2.drop 10 =
-    [.send 1 (.failure false .invalidMechanism), .send 1 .streamEnd, .closed 1, .disconnected 1 ['m', '@', 'd'],
-     .connected 1 ['m', '@', 'd', '/', 'r'],
-     .routed 1 { kind := .message, sender := ['m', '@', 'd', '/', 'r'], to := ['m', '@', 'd', '/', 'v'] },
-     .deliver 1 0 { kind := .message, sender := ['m', '@', 'd', '/', 'r'], to := ['m', '@', 'd', '/', 'v'] }] := by decide
+    [.send 1 (.failure false .invalidMechanism), .send 1 .streamEnd, .closed 1, .disconnected 1 ['m', '@', 'd']] := by decide
+/-- several elements in one read on an open connection are processed one after the other -/
+example : ((run demoCfg init
+    [(1, .openStream ['d']), (1, .auth false plainName (.creds ['m'] ['p']) false), (1, .deliver 0),
+     (1, .bind ['r']), (1, .sameRead (.stanza { kind := .message, sender := [], to := ['x', '@', 'd'] }))]).2.getLast?) =
+    some (.routed 1 { kind := .message, sender := ['m', '@', 'd', '/', 'r'], to := ['x', '@', 'd'] }) := by decide
 
 end Qx.C16
